@@ -3,7 +3,7 @@
    it yields; every transport / server / cache fault is an outcome that is not an authentic
    answer (UBadURL, UErr, FetchErr, or a response / bundle failing Authentic, Current, BundleGood).
    The theorems hold for every world, i.e. every assignment of faults to any number of URLs. *)
-From NCG Require Import Model.Revocation Proofs.Ocsp Proofs.CrlCheck Proofs.Revocation.
+From NCG Require Import Model.Revocation Proofs.Ocsp Proofs.CrlCheck Proofs.Revocation Run.RevSpec Proofs.ReflectRev.
 
 Theorem C06_fail_closed : forall w st c, c_ocsp c <> [] \/ c_crl c <> [] ->
   let r := cr_result (fst (check_cert w st c)) in
@@ -38,3 +38,13 @@ Theorem C06_fetch_fault_not_clear : forall w st s fr u,
   w_fetch w u = FetchErr -> ~ PointClear (w_fetch w) (w_now w) st s fr u.
 Proof. exact fetch_fault_not_clear. Qed.
 Print Assumptions C06_fetch_fault_not_clear.
+
+(* the evidence tests that the correspondence run applies to the verdicts the IMPLEMENTATION returned
+   (Run/C06.v, classes 2 and 3) are the declarative GoodEvidence / RevokedEvidence above *)
+Theorem C06_checked_good_evidence : forall w st c, good_evidence_b w st true c = true <-> GoodEvidence w st c.
+Proof. exact good_evidence_b_iff. Qed.
+Print Assumptions C06_checked_good_evidence.
+
+Theorem C06_checked_revoked_evidence : forall w st c, revoked_evidence_b w st true c = true <-> RevokedEvidence w st c.
+Proof. exact revoked_evidence_b_iff. Qed.
+Print Assumptions C06_checked_revoked_evidence.
